@@ -28,6 +28,15 @@ pub mod srgb;
 
 mod lut;
 
+/// Verification hook H2: read access to the lookup tables, their constants and
+/// the integer fast paths, so that a model can be checked against the compiled
+/// tables. Only exists when built with `--cfg palette_verif`.
+#[cfg(palette_verif)]
+#[doc(hidden)]
+pub mod __verif {
+    pub use super::lut::*;
+}
+
 /// A transfer function from linear space.
 pub trait FromLinear<L, E> {
     /// Convert the color component `linear` from linear space.
